@@ -10,3 +10,11 @@ package check
 //@   requires R != nil && S != nil && Vb != nil && Vb.val >= 0
 //@   ensures recid: result1 == nil ==> old(Vb.val) == 27 || old(Vb.val) == 28
 //@   ensures rs: result1 == nil ==> 1 <= old(R.val) && old(R.val) < N && 1 <= old(S.val) && old(S.val) <= div(N, 2)
+
+//@ # ASSUMED: decoding and sender recovery of checks do not modify program-visible state
+//@ func DecodeFromBytes
+//@   trusted
+//@   modifies nothing
+//@ func (*Check).Sender
+//@   trusted
+//@   modifies nothing
